@@ -26,8 +26,8 @@ CLAIMED = {
   technique=T + "header unit on symbolic window + public next() on enumerated skeletons with symbolic payloads"),
  "C04": dict(
   text="(a) header result is a function of the bytes below the fill level only (stale bytes symbolic); (b) ensure_data_read keeps the buffered window equal to the stream at every absolute position for "
-       "scripted short reads / temporary EOF / first fill / allocation smaller than the request incl. 0; (c) public next() over enumerated read partitions and capacities {0,1,5,16} of a 7-byte document with symbolic payloads equals the reference result.",
-  design_ref="DESIGN.md §6 C04", note="Longer inputs by induction from (a)+(b) (T5). 3 scripted reads of <= 8 bytes; partitions enumerated, not symbolic.",
+       "scripted short reads / temporary EOF / first fill / allocation smaller than the request incl. 0; (c) public next() over enumerated read partitions and capacities {0,1,5,16} of a 7-byte document with symbolic payloads equals the reference result; (d) header unit across a refill: 16 symbolic stream bytes, 0/1/4/8 of them buffered and the rest delivered 1/3/5 bytes per read (allocation 16/24): result == reference header of the 16 bytes, never an EOF/read error, position unchanged, buffered bytes == stream bytes.",
+  design_ref="DESIGN.md §6 C04, §12b", note="Longer inputs by induction from (a)+(b) (T5). 3 scripted reads of <= 8 bytes; partitions enumerated, not symbolic.",
   technique=T + "refill unit over a scripted symbolic reader + header unit with symbolic stale bytes + enumerated chunkings"),
  "C05": dict(
   text="Every unit reached is panic-free for all symbolic inputs (Rust panics, overflow, bounds, unwinding assertions are CBMC checks): header parse on any 24-byte buffer/fill/mask/limit, refill under any read script, "
@@ -57,8 +57,8 @@ CLAIMED = {
   technique=T + "validator vs DP pattern-matching oracle, symbolic path and chain"),
  "C12": dict(
   text="(a) a header cut anywhere (fill 0..15, stale bytes symbolic) yields the EOF error with start == cursor, id present iff complete, no size - never corruption; (b) a two-element document cut at positions 0,2,3,4,5,7,8 of 9 (positions 1 and 6 end in tool failures and are not registered), payload symbolic: "
-       "exactly the contained tags, None on a boundary, else EOF with accurate start/id/size/partial data.",
-  design_ref="DESIGN.md §6 C12", note="Ends of open masters at boundary cuts need read_next with masters: NOT covered. Flat spec, capacity 32/16.",
+       "exactly the contained tags, None on a boundary, else EOF with accurate start/id/size/partial data; (c) the converse for headers: when all 16 bytes of a header window exist in the stream (some buffered, the rest arriving in 1/3/5-byte reads) no EOF error is reported, whatever the split.",
+  design_ref="DESIGN.md §6 C12, §12b", note="Ends of open masters at boundary cuts need read_next with masters: NOT covered. Flat spec, capacity 32/16.",
   technique=T + "truncated header unit + public next() on every cut of an enumerated document"),
  "C13": dict(
   text="Header unit with symbolic tolerance mask (all 8) and limit: a complete header is rejected only for a fault it has, with that fault's own kind, id and offset, never for a tolerated class; accepted implies no untolerated fault (unknown id, misplaced, overrun, above limit); the limit stays in force under every tolerance setting; containment decided on stacks up to depth 3. Prefix-monotonicity = one-step version by induction.",
